@@ -16,8 +16,8 @@ CHECKS = {
     "src/blocks.rs": ["C02", "C01", "C16", "C15"],
     "src/block_parser.rs": ["C03", "C05", "C12", "C10"],
     "src/tag_parser.rs": ["C05", "C03", "C12"],
-    "src/language_parsers/mod.rs": ["C03", "C12"],
-    "src/language_parsers/markdown.rs": ["C03", "C12"],
+    "src/language_parsers/mod.rs": ["C03", "C12", "C10"],
+    "src/language_parsers/markdown.rs": ["C03", "C12", "C10"],
     "src/validators/keep_sorted.rs": ["C06", "C10", "C13"],
     "src/validators/keep_unique.rs": ["C07", "C10", "C13"],
     "src/validators/line_pattern.rs": ["C08", "C10", "C13"],
